@@ -17,7 +17,7 @@ from __future__ import annotations
 import ast
 import itertools
 
-from ..flow import Defs, Scope, all_defs_text, arg, bool_atoms, bool_eval, guards, iterations, nnf, rejections
+from ..flow import reach_rejections, Defs, Scope, all_defs_text, arg, bool_atoms, bool_eval, guards, iterations, nnf, rejections
 from ..loader import dotted, norm, walk_no_nested
 from ..report import Ctx
 from ..selftest import Mutant
@@ -133,8 +133,8 @@ def rule_validated(ctx: Ctx) -> None:  # noqa: C901, PLR0915
     else:
         ctx.add("3-validated", cl, cl.node, None, "UNDECIDED: no loop over _maybe_iterate_axes(...)", key="create-learners")
     vf = P.func(f"{PREP}._validate_fixed_indices")
-    rej = [r for r in rejections(ctx.cfg(vf), vf.node, Defs(vf)) if not r["dead"]]
-    probe = [t for t in ast.walk(vf.node) if isinstance(t, ast.Try) and any(isinstance(x, ast.Subscript) and "inputs[" in norm(x) for st in t.body for x in ast.walk(st))
+    rej = reach_rejections(ctx, vf)
+    probe = [t for f_ in Scope(ctx, vf, wide=True).funcs for t in ast.walk(f_.node) if isinstance(t, ast.Try) and any(isinstance(x, ast.Subscript) and "inputs[" in norm(x) for st in t.body for x in ast.walk(st))
              and any(h.type is not None and "IndexError" in norm(h.type) and any(isinstance(x, ast.Raise) for x in ast.walk(h)) for h in t.handlers)]
     ctx.tri("3-validated", vf, probe[0] if probe else vf.node, bool(probe), False, "every mapped input is indexed with the requested selection to detect out-of-range entries", "", "out-of-range probe not recognised", key="range-probe")
     ctx.tri("3-validated", vf, vf.node, len(rej) >= 2, len(rej) == 0, f"{len(rej)} rejections besides the range probe (unknown axis, reduced axis)", "_validate_fixed_indices never rejects anything", f"only {len(rej)} rejection(s) found", key="rejections")
